@@ -86,6 +86,13 @@ def dict_sub(a, b):
             del tmp[k]
     return tmp
 
+def scale_value(n, v):
+    # The size mark of a scaled register is repeated: arg2txt reads the scale
+    # from it. No addressing mode scales by more than 9 (reg+reg*8).
+    if isinstance(v, str) and n*len(v) > 9*len(x86_afs.u32):
+        raise ValueError('bad scale %d' % n)
+    return n*v
+
 def dict_mul(a, b):
     if list(a.keys()) == [x86_afs.imm]:
         ret = {}
@@ -93,7 +100,7 @@ def dict_mul(a, b):
             if k == x86_afs.symb:
                 ret[k] = dict_mul({x86_afs.imm:a[x86_afs.imm]}, b[k])
             else:
-                ret[k] = a[x86_afs.imm]*b[k]
+                ret[k] = scale_value(a[x86_afs.imm], b[k])
         return ret
     if list(b.keys()) == [x86_afs.imm]:
         ret = {}
@@ -101,7 +108,7 @@ def dict_mul(a, b):
             if k == x86_afs.symb:
                 ret[k] = dict_mul({x86_afs.imm:b[x86_afs.imm]}, a[k])
             else:
-                ret[k] = b[x86_afs.imm]*a[k]
+                ret[k] = scale_value(b[x86_afs.imm], a[k])
         return ret
     raise ValueError('bad dict mul %s %s'%(a,b))
 
